@@ -11,7 +11,7 @@ UMASKS = [None, 0o077, 0o027, 0o000, 0o177, 0o007]
 RULE = ("T06: every updateAttr body of P11Attributes.cpp is re-translated; theorem T06_sites (decide +kernel over the regenerated class tables) shows no plain byte-string store. "
         "K06: seeded histories on two tokens of every storing path the model has - C_CreateObject (25 classes), C_GenerateKey (AES, DES3), C_GenerateKeyPair (EC, RSA), "
         "C_CopyObject with public->private upgrade and fresh byte strings (label, id, subject, ...) in the template, C_SetAttributeValue on private objects, C_SetPIN, restarts "
-        "- with a directory dump after EVERY call under objectstore.umask in {default, 077, 027, 000, 177, 007}. The Lean driver (independent decoder) requires of every dump: every "
+        "- with a directory dump after EVERY call under objectstore.umask in {default, 077, 027, 000, 177, 007}, each written as 0077, 077 and 77 (the value is octal whatever its spelling; the loader itself is tied to its Lean model on arbitrary file bytes). The Lean driver (independent decoder) requires of every dump: every "
         "non-empty byte string of every private object is 16-byte IV + ciphertext of exactly the padded length, differs from its plaintext and decrypts (Lean AES-256-CBC, key "
         "from the PIN blob via Lean PBE) to the value of the model/API; public objects are in the clear; the 32-byte token key occurs nowhere in any file; no file/directory "
         "mode bit lies inside the configured umask, no file is executable. Additionally (implementation side only) every random byte string of >= 12 bytes supplied for a private object is "
@@ -60,9 +60,12 @@ def run_k(ctx, kres):
     traces = []
     for i in range(n):
         um = UMASKS[i % len(UMASKS)]
-        traces.append(Trace("enc%d" % i, gen.enc_history(ctx.seed * 86028121 + i, tables, ops, um), conf_extra="" if um is None else "objectstore.umask = %04o\n" % um))
+        traces.append(Trace("enc%d" % i, gen.enc_history(ctx.seed * 86028121 + i, tables, ops, um), conf_extra="" if um is None else "objectstore.umask = %s\n" % (["%04o", "%o", "%03o"][(i // len(UMASKS)) % 3] % um)))
     v = k_suite(ctx, kres, "K06-storing-paths", traces, in_projection, sig_of=sig_of, direct=direct)
     # every class x CKA_PRIVATE omitted / false / true (the class default decides what is private), label / id changes, copies made private: directory decoded after each
+    # the configuration loader at unit level (objectstore.umask is read with strtol base 8 in the Lean model of SimpleConfigLoader)
+    from .. import pure
+    v += pure.run_group(ctx, kres, "K06-pure-confloader", "conf", 300 if ctx.quick else 3000)
     from .. import gen2
     v += k_suite(ctx, kres, "K06-class-matrix(exhaustive)", [Trace("class-matrix", gen2.c06_class_matrix(tables, ctx.seed))], in_projection, sig_of=sig_of, direct=direct, shrink_budget=60)
     # under threads (the deterministic scheduler of C18): C_UnwrapKey of a private token key pre-empted at its mutex callbacks while another thread logs the token out /
